@@ -80,8 +80,8 @@ def configs(tier):
         # unsupported requests / OUT data stage / absent endpoints
         t(1, 1, (1, 0), d(8, 10), ["s-vout", "s-vend", "o0d1.1", "o0d0.2", "in0+", "in3+", "o5d0.1", "in1+"]),
         # bulk + status endpoints with producer / consumer switching
-        t(1, 1, (0,), d(8, 10), ["in1+", "in1-", "in2+", "in2-", "o1d0.2", "o1d1.2", "p-short", "p-off", "c-stall", "c-run"]),
-        t(1, 2, (2,), d(8, 10), ["in1+", "in1-", "o1d0.1", "o1d1.0", "s-gst", "in0+", "o0d1.0", "p-short", "sof"]),
+        t(1, 1, (0,), d(7, 9), ["in1+", "in1-", "in2+", "in2-", "o1d0.2", "o1d1.2", "p-short", "p-off", "c-stall", "c-run"]),
+        t(1, 2, (2,), d(7, 9), ["in1+", "in1-", "o1d0.1", "o1d1.0", "s-gst", "in0+", "o0d1.0", "p-short", "sof"]),
         # realistic full-speed byte pacing (8 cycles of the 12 MHz UTMI clock per byte, both directions)
         t(2, 8, (7,), d(6, 8), ["s-gdd18", "in0+", "o0d1.0", "in1+", "in2+", "o1d0.1", "s-sa"]),
         t(4, 8, (7,), d(6, 8), ["s-gst", "s-sc", "in0+", "in0-", "in1-", "o1d1.2", "sof", "o-in+ack"]),
